@@ -20,11 +20,25 @@ def key_of(el, charge):
     return el if charge == 0 else "%s%+d" % (el, charge)
 
 
+HUGE = [255, 256, 10 ** 9, 2 ** 31, 2 ** 63 - 1, 2 ** 63, 2 ** 64, 10 ** 30]      # "no limit", the way callers write it
+
+
+def _finish(t, rng):
+    """Callers write '?' anywhere, not last as the presets do; and now and then 'no limit' as a huge integer."""
+    if rng.random() < 0.06:
+        t[rng.choice(sorted(t))] = rng.choice(HUGE)
+    if rng.random() < 0.5:
+        items = list(t.items())
+        rng.shuffle(items)
+        t = dict(items)
+    return t
+
+
 def random_table(rng, nkeys=None, caps=CAPS, q=None):
     t = {"?": rng.choice([0, 1, 2, 4, 8, 12]) if q is None else q}
     for _ in range(rng.randint(0, 12) if nkeys is None else nkeys):
         t[key_of(rng.choice(ELS), rng.choice(CHARGES))] = rng.choice(caps)
-    return t
+    return _finish(t, rng)
 
 
 def perturbed_preset(rng):
@@ -38,7 +52,7 @@ def perturbed_preset(rng):
         for k in rng.sample(sorted(base), 3):
             if k != "?":
                 del base[k]
-    return base
+    return _finish(base, rng)
 
 
 def any_table(rng):
